@@ -460,11 +460,23 @@ pub fn orchestrate(check: &dyn Check, tier: Tier, root: &str, jobs: usize, seed:
             .args(["solo", prop, tier.name(), &idx.to_string(), &out])
             .stdin(std::process::Stdio::null())
             .status();
-        let reproduced = match st {
-            Ok(s) => !s.success(),
+        // exit 97 = watchdog (hang), a signal = abort; 0 / 1 = the case ran to its end (pass / ordinary failure)
+        let ran_to_end = matches!(&st, Ok(s) if s.code() == Some(0) || s.code() == Some(1));
+        let reproduced = match &st {
+            Ok(s) => !s.success() && !ran_to_end,
             Err(_) => false,
         };
-        if reproduced {
+        if ran_to_end {
+            // the worker stalled or died for a reason that is not the case (machine under load, memory
+            // pressure): the case has now been run alone and its verdict is merged like any other
+            match std::fs::read_to_string(&out).ok().and_then(|t| serde_json::from_str::<Value>(&t).ok()) {
+                Some(v) => {
+                    merged.merge_json(&v);
+                    *merged.counters.entry(format!("worker {} on a case that runs to its end alone (re-run alone and counted)", f.kind)).or_insert(0) += 1;
+                }
+                None => machinery_errors.push(format!("case {} stalled a worker ({}) and its solo re-run left no result", idx, f.kind)),
+            }
+        } else if reproduced {
             let ident = std::fs::read_to_string(format!("{}.ident", out)).unwrap_or_else(|_| format!("idx {}", idx));
             let key = format!("{}:{}", f.kind, case_key(&ident));
             merged.cases += 1;
@@ -614,6 +626,14 @@ pub fn solo(check: &dyn Check, tier: Tier, idx: usize, out: Option<&str>, quiet:
         let _ = std::fs::write(format!("{}.ident", out), check.case_ident(tier, idx));
     }
     let o = check.run_case(tier, idx);
+    if let (true, Some(out)) = (quiet, out) {
+        // the verdict of the case, in the format of a worker: a case that stalled a worker but runs
+        // to its end here is counted with this verdict
+        let mut m = Merged::default();
+        m.completed = true;
+        m.absorb(idx, o.clone(), false);
+        let _ = std::fs::write(out, serde_json::to_string(&m.to_json()).unwrap());
+    }
     match &o.status {
         Status::Fail(v) => {
             if !quiet {
